@@ -39,14 +39,6 @@ Definition list_eqb (a b : list string) : bool :=
   Nat.eqb (List.length a) (List.length b) &&
   forallb (fun p => String.eqb (fst p) (snd p)) (combine a b).
 
-(* the declaration Go selects for a promoted (or own) method name: first level that has it *)
-Fixpoint find_level (fuel : nat) (lvl : list tree) (n : string) : option meth :=
-  match flat_map (fun t => filter (fun m => String.eqb (m_name m) n) (t_own t)) lvl with
-  | m :: _ => Some m
-  | [] => match fuel with O => None | S f => find_level f (flat_map t_emb lvl) n end
-  end.
-Definition find_decl (t : tree) (n : string) : option meth := find_level (height t) [t] n.
-
 (* ---- domain of the property (what the quantifier and the theorems' hypotheses cover) ---- *)
 Definition basic_names : list string :=
   ["bool"; "string"; "int"; "int8"; "int16"; "int32"; "int64"; "uint"; "uint8"; "uint16";
@@ -105,8 +97,24 @@ Definition methods_ok (c : c19_case) : bool :=
   forallb (fun n => negb (spec_methodb (cc_priv c) (cc_emb c) (cc_tree c) n) || mem n obs)
           (all_names (cc_tree c)).
 
+(* the signature of every collected method is the rendering of the declaration Go selects for
+   that name (the unique shallowest one) — not of some other method of the same name further
+   down; rendered under the import table as FindInterface leaves it *)
+Definition final_table (c : c19_case) : table :=
+  let e := Env (cc_self c) (cc_pkg_imports c) in
+  snd (to_iface e (cc_priv c) (cc_emb c) (calc_imports e (cc_specs c)) (cc_tree c)).
+
+Definition sig_ok (c : c19_case) (st : table) (o : obs_meth) : bool :=
+  match find_decl (cc_tree c) (om_name o) with
+  | None => false
+  | Some m0 =>
+      String.eqb (om_sig o)
+                 (signature (fst (render_method (Env (cc_self c) (cc_pkg_imports c)) st m0)))
+  end.
+
 Definition spec_ok (c : c19_case) : bool :=
-  methods_ok c && forallb (names_ok c) (cc_obs c) && cc_compiled c.
+  methods_ok c && forallb (names_ok c) (cc_obs c) &&
+  (let st := final_table c in forallb (sig_ok c st) (cc_obs c)) && cc_compiled c.
 
 (* ---- model side ---- *)
 Definition meth_eq (o : obs_meth) (m : rmeth) : bool :=
